@@ -146,6 +146,7 @@ def run(ctx):
         return cg.body(b.root) if b.root else b
 
     memo = {}
+    entry_points = set()
 
     def rooted(b, op, depth=0):
         """(ok, reason): the path operand derives only from the out_dir parameter of generate_files"""
@@ -174,6 +175,13 @@ def run(ctx):
             memo[key] = (True, "")
             cs = [(cb, t) for cb, t in callers.get(b.id, []) if owner(cb).id != b.id or True]
             ext = [(cb, t) for cb, t in cs]
+            if not ext and b.d.get("vis") == "pub" and k == b.argc and b.argc >= 2:
+                # another public entry point (no caller inside the crate): by the convention of generate_files its last parameter
+                # is the requested output directory — it must be a path (a type parameter / Path / PathBuf), not text
+                ty_ = tystr(strip_refs(b.local_ty(k)))
+                if ty_ in ("std::path::Path", "std::path::PathBuf") or (len(ty_) <= 2 and ty_.isupper()) or ty_.startswith("impl "):
+                    entry_points.add(b.id)
+                    continue
             if not ext:
                 memo[key] = (False, f"{b.id} has no caller inside conjure_codegen: parameter #{k} is not tied to generate_files' output directory")
                 return memo[key]
